@@ -3,13 +3,16 @@
 Tie D on integer-coordinate point sets (every squared distance is an exact binary64 integer, so the real
 kernels' comparisons are the model's comparisons on squared values):
 
-* k-nearest nodes: public `nearest_neighbor_search_from_nodes_to_nodes` once per scene, then the njit kernel
-  `_nns_from_nodes_to_nodes` on the *same* octree (captured by wrapping `build_octree_node` from the harness)
-  for a sweep of k (1 .. beyond |targets|) and distance bounds (inf, 0, tie values, tie values -/+ 1) --
-  index / vector / distance arrays compared entry by entry with `Femio.C16.knn` (the heap order (d2, -idx) fixes
-  the order also on ties); oracle = exhaustive search, tie tolerant (any valid choice among equidistant targets).
-* Hausdorff: public symmetric call + both directed kernels on the captured octrees vs `hausDirectedT`;
-  oracle = max-min over all pairs in integer arithmetic.
+* k-nearest nodes: public `nearest_neighbor_search_from_nodes_to_nodes` for every (k, bound) of a sweep per scene (k = 1 ..
+  beyond |targets|; bounds inf, 0, tie values, tie values -/+ 1); the harness wraps `build_octree_node` and hands back the tree
+  it already built for bit-identical arguments, so a sweep costs one real build -- index / vector / distance arrays compared
+  entry by entry with `Femio.C16.knn` (the heap order (d2, -idx) fixes the order also on ties); oracle = exhaustive search, tie
+  tolerant (any valid choice among equidistant targets).
+* Hausdorff: the three PUBLIC questions per pair of objects -- symmetric, directed self -> target, directed with the roles
+  exchanged -- plus both directed kernels on the captured octrees (skipped if the kernel's signature changed) vs `hausDirectedT`;
+  oracle = max-min over all pairs in integer arithmetic.  Deliberate structure on every run (not left to the luck of a random
+  scene): NEAR TIES of nearest-target distances across leaves with the nearest targets in opposite senses (scene + its point
+  reflection), and NEARLY IDENTICAL clouds (equal size and order, a few units apart at coordinates >= 1e6, float32 round trips).
 * hop graph: both BFS kernels through `calculate_euclidean_hop_graph` on integer-coordinate tet/hex/mixed bricks vs
   `hopNodal` / `hopElemental`; oracle = the docstring's chain definition evaluated on the node / element graph.
 * stream absolute-scale: the same integer scenes handed to femio scaled exactly by 2^e, e = -20 .. 10, radius / bound scaled
@@ -29,7 +32,8 @@ from . import meshgen as MG
 PROP = 'C16'
 LEAN_MODULES = ['Femio.Props.C16']
 THEOREMS = ['C16_lb_sound', 'C16_ub_sound', 'C16_root_contains', 'C16_leaf_contains', 'C16_branch_and_bound',
-            'C16_knn_terminates', 'C16_knn_refines', 'C16_knn_output', 'C16_hausdorff', 'C16_hop_graph', 'C16_hop_nodal_chain']
+            'C16_knn_terminates', 'C16_knn_refines', 'C16_knn_output', 'C16_hausdorff', 'C16_ub_needs_abs_counterexample',
+            'C16_hausdorff_positive', 'C16_hausdorff_directed_not_symmetric', 'C16_hop_graph', 'C16_hop_nodal_chain']
 PARTIAL = [
     'binary64 rounding of the octree boxes is not modelled: the theorems are over exact rationals, where the eight children '
     'cover their parent (children_cover / C16_leaf_contains); whether the float tree keeps every point is observed per run '
@@ -46,6 +50,13 @@ RULE = ('scenes = (style, targets, queries) with integer coordinates; styles: ra
         'for m a realised squared distance and m-1, m+1}; Hausdorff on pairs of such sets; hop graphs on tet/hex/mixed '
         'bricks mapped by an integer matrix, radii on realised node distances; a case is non-trivial when the answer '
         'is not all-padding / not zero / not empty; distinct = distinct (points, k, bound) resp. (A, B) resp. (mesh, r, mode). '
+        'Deliberate styles in every run: near-tie (K = 6..9 source / nearest-target pairs spread over 24..50 D whose distances D, D+1, D+2 .. '
+        'differ by far less than a leaf width, directions cycling through the axes / five diagonals with alternating senses, so that '
+        'neighbours in the ranking look in opposite directions and every (axis, sense) occurs; Hausdorff: the scene and its point reflection, extra sources on '
+        'targets so |A| != |B|; k-nearest: every query with its two nearest targets in opposite directions at d and d + <1) and '
+        'near-identical (two clouds of equal size and order, every |coordinate| >= 1e6, differing by 1..3 units in some points / in one '
+        'coordinate / by a float32 round trip: relative 1e-8 .. 3e-6; also once at scale 2^-20..2^-14: differences 1e-6 .. 2e-4). '
+        'Every Hausdorff scene is asked symmetric, directed A->B and directed B->A through the public method (|A| <, =, > |B| counted). '
         'Stream same-object: each search (k-nearest with two objects and as self-search, Hausdorff symmetric / directed, hop '
         'graph nodal / elemental) is computed on one geometry, the node positions of the SAME objects are replaced through '
         '`nodes.data = …` by an integer-affine image (connectivity unchanged, no cache cleared) and the search is repeated '
@@ -69,10 +80,16 @@ ASSUMPTIONS = [
     'stream absolute-scale: scaling by a power of two in 2^-20 .. 2^10 commutes with every binary64 operation of the k-nearest / '
     'Hausdorff kernels on these scenes (|coordinates| <= 10^6 in integer units: no overflow, no subnormals), so the scaled answer is '
     'judged by the same exhaustive-search oracle after dividing by 2^e; near-plane scenes (extent ~1e8) stay at unit scale',
+    'near-identical scenes: integer coordinates below 2^26, so coordinates, differences and squared distances are exact in binary64 '
+    'although the clouds sit at 1e6 .. 6.7e7; the float octree boxes there carry rounding errors of ~1e-8 of a unit, far below the unit '
+    'differences that decide the answers (calibrated on the unchanged tree, seeds 0..5, and on extents down to 3 units at 6.7e7)',
     'node->element and element->element searches are randomised (np.random sampling) and outside the property',
 ]
 TRUSTED = ['C16: the harness computes the root box (centre, 0.51*extent in binary64) exactly as the wrapper does and '
-           'passes it to the model as exact rationals']
+           'passes it to the model as exact rationals',
+           'C16: within one scene the harness wrapper of build_octree_node returns the tree the real function already built for '
+           'bit-identical (points, bounding box) arguments (several public calls per scene cost one build per cloud); the real '
+           'function is assumed to be a function of its arguments']
 
 DEPTH = 8
 
@@ -92,19 +109,36 @@ def mk_points(pts):
 
 
 class Capture:
-    """wrap GraphProcessorMixin.build_octree_node (a static njit function) to keep the octrees a public call builds"""
+    """wrap GraphProcessorMixin.build_octree_node (a static njit function) to keep the octrees a public call builds.
+    `memo=True`: the wrapper additionally returns the tree it already built for bit-identical (points, bounding box)
+    arguments within this `with` block, so that several PUBLIC calls on one scene (every (k, bound) of a sweep; symmetric /
+    directed self->target / directed target->self) cost one real build (0.8 s, 613 MB) per distinct cloud; every distinct
+    input is still built by the real code (`n_built` counts the real builds)."""
 
-    def __init__(self):
+    def __init__(self, memo=False):
         from femio.graph_processor import GraphProcessorMixin as G
         self.G = G
         self.orig = G.__dict__['build_octree_node']
         self.trees = []
+        self.memo = {} if memo else None
+        self.n_built = 0
 
     def __enter__(self):
         f = self.orig.__func__ if isinstance(self.orig, staticmethod) else self.orig
 
         def wrapped(points, boundingbox):
+            key = None
+            if self.memo is not None:
+                pa = np.asarray(points)
+                key = (pa.dtype.str, pa.shape, pa.tobytes(), tuple(float(v) for v in boundingbox))
+                if key in self.memo:
+                    t = self.memo[key]
+                    self.trees.append(t)
+                    return t
             t = f(points, boundingbox)
+            self.n_built += 1
+            if key is not None:
+                self.memo[key] = t
             self.trees.append(t)
             return t
         self.G.build_octree_node = staticmethod(wrapped)
@@ -112,6 +146,24 @@ class Capture:
 
     def __exit__(self, *a):
         self.G.build_octree_node = self.orig
+
+
+def kernel_of(name):
+    from femio.graph_processor import GraphProcessorMixin as G
+    kern = G.__dict__[name]
+    return kern.__func__ if isinstance(kern, staticmethod) else kern
+
+
+def call_kernel(ctx, name, *args):
+    """an internal njit kernel called directly on captured octrees (its signature is not part of the property: if the tree under
+    check changed it the direct call is skipped and counted; the public calls carry the verdict)"""
+    try:
+        return quiet(kernel_of(name), *args)
+    except TypeError as e:
+        ctx.count(f'kernel:{name}:not-callable-with-the-known-signature')
+        if not any(name in n for n in ctx.notes):
+            ctx.notes.append(f'{name} could not be called directly with the known signature ({str(e)[:120]}); only the public calls were judged')
+        return None
 
 
 def root_box(*sets):
@@ -208,8 +260,26 @@ def gen_points(rnd, style, n):
 STYLES = ['random', 'cluster', 'collinear', 'coplanar', 'lattice', 'duplicates', 'single', 'near-plane']
 
 
-def gen_scene(rnd, i):
-    style = STYLES[i % len(STYLES)]
+KSTYLES = STYLES + ['near-tie', 'near-identical']          # the k-nearest main stream (the last two: deliberate structure)
+
+
+def gen_scene(rnd, i, styles=STYLES):
+    style = styles[i % len(styles)]
+    if style == 'near-tie':
+        # every query has its two nearest targets in OPPOSITE directions at nearly the same distance (d and d + <1), in other
+        # leaves than the query's; the queries' own nearest distances are a near tie too
+        src, tgt, fill, D = gen_near_tie_pairs(rnd, rnd.choice(['axis', 'diagonal', 'mixed']))
+        T = list(tgt)
+        for c, t in zip(src, tgt):
+            o = [c[j] - (t[j] - c[j]) for j in range(3)]
+            j = max(range(3), key=lambda j: abs(o[j] - c[j]))
+            o[j] += 1 if o[j] > c[j] else -1
+            T.append(o)
+        rnd.shuffle(T)
+        return {'style': style, 'qmode': 'sources', 'targets': T, 'queries': src + fill[:1]}
+    if style == 'near-identical':
+        A, B, label = gen_near_identical(rnd, rnd.randrange(3), n=rnd.choice([2, 5, 12, 20]))
+        return {'style': style, 'qmode': label.split('/')[1], 'targets': A, 'queries': B}     # equal size and order
     nt = rnd.choice([1, 2, 3, 5, 8, 13, 21, 40])
     nq = rnd.randint(1, 12)
     T = gen_points(rnd, style, nt)
@@ -316,23 +386,20 @@ def bound_of(m):
 
 
 def knn_scene(ctx, scene, n_combo):
-    from femio.graph_processor import GraphProcessorMixin as G
     T, Q = scene['targets'], scene['queries']
     combos = sweep(ctx.rng, T, Q, n_combo)
     ft, fq = mk_points(T), mk_points(Q)
-    k0, m0 = combos[0]
-    with Capture() as cap:
-        pub = quiet(fq.nearest_neighbor_search_from_nodes_to_nodes, k0, distance_upper_bound=bound_of(m0), target_fem_data=ft)
+    # every (k, bound) of the sweep through the PUBLIC call (the memoising capture makes the sweep cost one real octree build)
+    with Capture(memo=True) as cap:
+        results = [quiet(fq.nearest_neighbor_search_from_nodes_to_nodes, k, distance_upper_bound=bound_of(m), target_fem_data=ft)
+                   for k, m in combos]
     octree = cap.trees[-1]
-    kern = G.__dict__['_nns_from_nodes_to_nodes']
-    kern = kern.__func__ if isinstance(kern, staticmethod) else kern
-    qarr = np.asarray(Q, np.float64)
-    results = [pub] + [quiet(kern, qarr, octree, k, bound_of(m)) for k, m in combos[1:]]
+    if cap.n_built != 1:
+        ctx.count(f'knn:octrees-built-per-sweep:{cap.n_built}')
     models = model_knn(ctx, T, Q, combos) if ctx.driver is not None else [None] * len(combos)
     check_leaves(ctx, scene, octree)
     for ci, ((k, m), (idx, vec, dist), mod) in enumerate(zip(combos, results, models)):
-        case = {'kind': 'knn', 'targets': T, 'queries': Q, 'k': k, 'bound2': m, 'via': 'public' if ci == 0 else 'kernel',
-                'style': scene['style']}
+        case = {'kind': 'knn', 'targets': T, 'queries': Q, 'k': k, 'bound2': m, 'via': 'public', 'style': scene['style']}
         nontriv = False
         for qi, q in enumerate(Q):
             r = check_row(T, q, k, m, idx[qi], vec[qi], dist[qi])
@@ -409,22 +476,38 @@ def brute_hd2(A, B):
 
 
 def haus_scene(ctx, A, B, label):
-    from femio.graph_processor import GraphProcessorMixin as G
     fa, fb = mk_points(A), mk_points(B)
-    with Capture() as cap:
+    # the three PUBLIC questions on one pair of objects: symmetric, directed self -> target, and directed with the roles
+    # exchanged (the memoising capture makes them cost the two real octree builds of the first call)
+    with Capture(memo=True) as cap:
         sym = quiet(fa.calculate_hausdorff_distance_nodes, fb, directed=False)
-    oa, ob = cap.trees[-2], cap.trees[-1]
-    kern = G.__dict__['_calc_directed_hausdorff_nodes']
-    kern = kern.__func__ if isinstance(kern, staticmethod) else kern
-    ab = quiet(kern, oa, ob)
-    ba = quiet(kern, ob, oa)
+        trees = list(cap.trees)
+        pab = quiet(fa.calculate_hausdorff_distance_nodes, fb, directed=True)
+        pba = quiet(fb.calculate_hausdorff_distance_nodes, fa, directed=True)
     want_ab, want_ba = brute_hd2(A, B), brute_hd2(B, A)
     case = {'kind': 'hausdorff', 'A': A, 'B': B, 'label': label}
-    for name, got, want in (('directed A->B', ab, want_ab), ('directed B->A', ba, want_ba), ('symmetric', sym, max(want_ab, want_ba))):
+    judged = [('symmetric', sym, max(want_ab, want_ba)), ('directed A->B (A.calculate_hausdorff_distance_nodes(B, directed=True))', pab, want_ab),
+              ('directed B->A (B.calculate_hausdorff_distance_nodes(A, directed=True))', pba, want_ba)]
+    ab = ba = None
+    if len(trees) == 2:
+        # the directed kernel on the octrees the public call built (both directions)
+        oa, ob = trees
+        ab = call_kernel(ctx, '_calc_directed_hausdorff_nodes', oa, ob)
+        ba = call_kernel(ctx, '_calc_directed_hausdorff_nodes', ob, oa) if ab is not None else None
+        if ab is not None:
+            judged += [('directed-kernel A->B', ab, want_ab), ('directed-kernel B->A', ba, want_ba)]
+    else:
+        ctx.count(f'hausdorff:octrees-built-by-the-symmetric-call:{len(trees)}')
+    for name, got, want in judged:
         if not close(float(got), math.sqrt(want)):
-            ctx.fail('hausdorff:' + name.split()[0], f'{name}: returned {float(got)!r}, max-min over all pairs = sqrt({want})',
+            ctx.fail('hausdorff:' + name.split()[0], f'{name}: returned {float(got)!r}, max-min over all pairs = sqrt({want}) = {math.sqrt(want)!r}',
                      {**case, 'which': name}, float(got))
-    if ctx.driver is not None:
+    if ab is None:
+        ab, ba = pab, pba
+    if ctx.driver is not None and ctx.quick and len(A) * len(B) > 640:
+        # the model's cost grows with |A| * |B| (40 x 40: ~18 s): in the quick tier the large scenes are judged by the oracle only
+        ctx.count('hausdorff:model-not-asked (quick tier, |A| * |B| > 640)')
+    elif ctx.driver is not None:
         c, w = root_box(A, B)
         rep = ctx.driver.ask(f'c16.hausdorff {enc_box(c, w)} {DEPTH} {enc_pts(A)} {enc_pts(B)}')
         t = C.Toks(rep)
@@ -438,8 +521,8 @@ def haus_scene(ctx, A, B, label):
              sample={'kind': 'hausdorff', 'label': label, 'nA': len(A), 'nB': len(B), 'hd2': [want_ab, want_ba]},
              nontrivial=max(want_ab, want_ba) > 0)
     ctx.count('hausdorff:' + label)
-    if want_ab == want_ba:
-        ctx.count('hausdorff:directed-values-equal')
+    ctx.count('hausdorff:directed-values-' + ('equal' if want_ab == want_ba else 'differ') +
+              (', |A| > |B|' if len(A) > len(B) else ', |A| < |B|' if len(A) < len(B) else ', |A| = |B|'))
 
 
 def crafted_haus():
@@ -457,6 +540,112 @@ def crafted_haus():
         out.append((A, B, 'crafted/leaf-diagonal'))
         out.append(([[-v for v in p] for p in A], [[-v for v in p] for p in B], 'crafted/leaf-diagonal-mirrored'))
     return out[:4]
+
+
+# ---------------------------------------------------------------- deliberate structure (never left to the luck of a random scene)
+
+DIRS_AXIS = [[1, 0, 0], [0, 1, 0], [0, 0, 1]]
+DIRS_DIAG = [[1, 1, 1], [1, 1, 0], [0, 1, 1], [1, 0, 1], [1, -1, 1], [1, 1, -1], [1, -1, 0], [2, 1, 0], [0, 1, -2]]
+
+
+def gen_near_tie_pairs(rnd, family):
+    """K well separated (source, nearest target) pairs whose distances are a NEAR TIE: |offset_i| = D + small, all different,
+    far below the leaf width of the octree of the scene (the pairs are spread over 24 .. 50 D, leaf width 0.1 .. 0.2 D), every pair in
+    its own leaves, the directions source -> nearest target spread over both senses of the axes / diagonals: ranked by distance
+    the senses alternate, so the farthest pair and the runner-up look in OPPOSITE directions.  Box-level bounds cannot
+    separate such pairs; an ordering / early exit that relies on a bound which is wrong for one sense of a direction picks
+    the wrong one.  Returns (sources, targets, filler sources with much smaller distances)."""
+    K = rnd.choice([6, 7, 8, 9])
+    D = rnd.choice([100, 150, 240, 400])
+    spread = rnd.choice([12, 16, 25]) * D
+    cs = []
+    while len(cs) < K + 3:
+        c = [rnd.randint(-spread, spread) for _ in range(3)]
+        if all(max(abs(c[j] - o[j]) for j in range(3)) >= 5 * D for o in cs):
+            cs.append(c)
+    # offsets by rank r = 0 (farthest) .. K-1: direction dirs[r mod n] (n odd) * length ~ D + K-1-r; with the sense (-1)^r below,
+    # K >= 6 pairs of the axis family realise all six (axis, sense) combinations.  Nearly equal lengths, no two pairs exactly
+    # equal in squared length.
+    if family == 'axis':
+        dirs = [list(d) for d in DIRS_AXIS]
+    elif family == 'diagonal':
+        dirs = [list(d) for d in rnd.sample(DIRS_DIAG, 5)]
+    else:
+        dirs = [list(d) for d in DIRS_AXIS + rnd.sample(DIRS_DIAG, 2)]
+    rnd.shuffle(dirs)
+    uniq = []
+    for r in range(K):
+        d = dirs[r % len(dirs)]
+        t = max(1, round((D + K - 1 - r) / math.sqrt(sum(v * v for v in d))))
+        o = [v * t for v in d]
+        if sum(1 for v in d if v) > 1:
+            o[rnd.randrange(3)] += rnd.choice([0, 1, -1])           # off the exact diagonal by a unit
+        while sum(v * v for v in o) in {sum(v * v for v in u) for u in uniq}:
+            j = max(range(3), key=lambda j: abs(o[j]))
+            o[j] += 1 if o[j] > 0 else -1
+        uniq.append(o)
+    s0 = rnd.choice([1, -1])
+    src, tgt = [], []
+    for r, (c, o) in enumerate(zip(cs, uniq)):
+        sg = s0 if r % 2 == 0 else -s0                               # the senses alternate
+        src.append(list(c))
+        tgt.append([c[j] + sg * o[j] for j in range(3)])
+    fill = []
+    for c in cs[K:]:
+        o = [rnd.randint(-D // 3, D // 3) for _ in range(3)]
+        fill.append(list(c))
+        tgt.append([c[j] + o[j] for j in range(3)])
+    return src, tgt, fill, D
+
+
+def gen_near_tie_haus(rnd, i):
+    """[(A, B, label)]: a near-tie scene and its point reflection (so that whichever sense the farthest pair looks in, the other
+    sense is evaluated too), A = sources (+ fillers), B = their targets; A is listed in shuffled order"""
+    family = ('axis', 'diagonal', 'mixed')[i % 3]
+    src, tgt, fill, D = gen_near_tie_pairs(rnd, family)
+    # (some sources coincide with targets of other pairs: distance 0, and |A| != |B|)
+    A = src + fill + [list(t) for t in rnd.sample(tgt, rnd.choice([0, 1, 3]))]
+    B = list(tgt)
+    rnd.shuffle(A)
+    rnd.shuffle(B)
+    neg = lambda P: [[-v for v in p] for p in P]  # noqa
+    return [(A, B, f'near-tie/{family}'), (neg(A), neg(B), f'near-tie/{family}/reflected')]
+
+
+BIG = [2 ** 20, 10 ** 6, 3 * 10 ** 6, 10 ** 7, 2 ** 24 + 5, 3 * 10 ** 7, 4 * 10 ** 7]
+
+
+def gen_near_identical(rnd, i, n=None):
+    """(A, B, label): two clouds of EQUAL SIZE AND ORDER that differ by a few units while every coordinate is >= 1e6 in absolute
+    value: relative differences 2.5e-8 .. 3e-6 (anything that compares coordinates with np.allclose / np.isclose defaults,
+    rtol 1e-5, or through float32 calls them equal); the true distances are 1 .. 5 units.  Integer coordinates below 2^26:
+    every difference and squared distance is exact.  Variants: unit shifts of some points, of ONE coordinate of one point, and
+    the float32 round trip of the cloud (integers above 2^24 move to the next multiple of 2 or 4)."""
+    variant = ('unit-shifts', 'float32-round-trip', 'one-coordinate')[i % 3]
+    n = n or rnd.choice([2, 5, 12, 30])
+    ext = rnd.choice([12, 60, 300, 2000, 20000])
+    if variant == 'float32-round-trip':
+        off = [rnd.choice([1, -1]) * rnd.choice([2 ** 24 + 5, 3 * 10 ** 7, 4 * 10 ** 7, 2 ** 25 + 3]) for _ in range(3)]
+    else:
+        off = [rnd.choice([1, -1]) * rnd.choice(BIG) for _ in range(3)]
+    base = gen_points(rnd, rnd.choice(['random', 'cluster', 'coplanar', 'lattice']), n)
+    lo = [min(p[j] for p in base) for j in range(3)]
+    hi = [max(p[j] for p in base) for j in range(3)]
+    sc = max(1, ext // max(1, max(hi[j] - lo[j] for j in range(3))))
+    A = [[off[j] + sc * (p[j] - lo[j]) for j in range(3)] for p in base]
+    if variant == 'float32-round-trip':
+        B = [[int(v) for v in row] for row in np.asarray(A, np.float64).astype(np.float32).astype(np.float64)]
+        if B == A:
+            B[0][0] += 4
+    elif variant == 'one-coordinate':
+        B = [list(p) for p in A]
+        B[rnd.randrange(len(B))][rnd.randrange(3)] += rnd.choice([1, -1, 2])
+    else:
+        B = [[v + (rnd.choice([0, 0, 1, -1, 2, -3]) if rnd.random() < 0.6 else 0) for v in p] for p in A]
+        if B == A:
+            B[-1][1] -= 1
+    assert len(A) == len(B) and A != B and all(abs(a - b) <= 1e-8 + 1e-5 * abs(b) for p, q in zip(A, B) for a, b in zip(p, q))
+    return A, B, f'near-identical/{variant}'
 
 
 HSTYLES = STYLES + ['outliers', 'outliers']
@@ -826,9 +1015,15 @@ def absolute_scale_stream(ctx, n_hop, n_pts):
         ctx.case(('knn-scaled', repr(case)), sample={'kind': 'knn:absolute-scale', 'style': scene['style'], 'k': k, 'bound2': m,
                                                      'scale_exp': e, 'n_targets': len(T)}, nontrivial=True)
         ctx.count('absolute-scale:knn')
-        A, B, label = gen_haus(rnd, rnd.randrange(len(HSTYLES)))
-        if max(abs(v) for p in A + B for v in p) > 10 ** 6:
-            continue
+        if i % 4 == 3:
+            # nearly identical clouds at a SMALL absolute scale: coordinates of a few units, differences 1e-6 .. 2e-4 (exact
+            # multiples of 2^e), i.e. equal under an absolute tolerance of that size as well as under rtol 1e-5
+            e = rnd.choice(SCALE_EXPS_SMALL)
+            A, B, label = gen_near_identical(rnd, i // 4)
+        else:
+            A, B, label = gen_haus(rnd, rnd.randrange(len(HSTYLES)))
+            if max(abs(v) for p in A + B for v in p) > 10 ** 6:
+                continue
         case = {'kind': 'hausdorff-scaled', 'A': A, 'B': B, 'label': label, 'scale_exp': e, 'which': i % 2}    # symmetric / directed
         for sig, what, obs in scaled_haus_eval(case):
             ctx.fail(sig, what, case, obs)
@@ -841,20 +1036,40 @@ def absolute_scale_stream(ctx, n_hop, n_pts):
 
 def run(ctx):
     import femio  # noqa
-    n_knn = ctx.n(36, 150)
+    import time
+    n_knn = ctx.n(34, 150)
     n_combo = ctx.n(10, 16)
-    n_haus = ctx.n(14, 90)
+    n_haus = ctx.n(10, 90)
     n_hop = ctx.n(12, 80)
+    t0, times = time.time(), []
+
+    def lap(name):
+        nonlocal t0
+        times.append(f'{name} {time.time() - t0:.0f}s')
+        t0 = time.time()
     for name, obj in C.corpus_cases(PROP):
         r = replay(ctx, {'input': obj.get('input', obj)})
         ctx.count('corpus:' + ('fails' if r.get('fails') else 'passes'))
+    lap('corpus')
     for i in range(n_knn):
-        knn_scene(ctx, gen_scene(ctx.rng, i), n_combo)
+        knn_scene(ctx, gen_scene(ctx.rng, i, KSTYLES), n_combo)
+    lap('knn')
     for A, B, label in crafted_haus():
         haus_scene(ctx, A, B, label)
+    # deliberate structure, every run: near ties of the nearest-target distances across leaves with the nearest targets in
+    # opposite senses (each scene and its point reflection), and clouds of equal size and order that differ by a few units at
+    # coordinates >= 1e6 (relative 1e-8 .. 1e-6)
+    for i in range(ctx.n(3, 12)):
+        for A, B, label in gen_near_tie_haus(ctx.rng, i):
+            haus_scene(ctx, A, B, label)
+    for i in range(ctx.n(3, 12)):
+        A, B, label = gen_near_identical(ctx.rng, i)
+        haus_scene(ctx, A, B, label)
+    lap('hausdorff-deliberate')
     for i in range(n_haus):
         A, B, label = gen_haus(ctx.rng, i)
         haus_scene(ctx, A, B, label)
+    lap('hausdorff-random')
     hop_docstring_example(ctx)
     for i in range(n_hop):
         m = gen_hop_mesh(ctx.rng)
@@ -863,11 +1078,15 @@ def run(ctx):
         for mode in ('nodal', 'elemental'):
             r2 = ctx.rng.choice([0, real[0], real[min(len(real) - 1, ctx.rng.randint(0, 6))], ctx.rng.choice(real), real[0] + 1])
             hop_case(ctx, m, r2, mode)
+    lap('hop')
     # stream same-object: every search asked again with the same arguments after the node positions of the same object(s)
     # were replaced through the public setter
     history_stream(ctx, ctx.n(3, 24), ctx.n(8, 40))
+    lap('same-object')
     # stream absolute-scale: the same integer scenes scaled exactly by 2^e, e = -20 .. 10, radius / bound scaled along
     absolute_scale_stream(ctx, ctx.n(14, 90), ctx.n(4, 30))
+    lap('absolute-scale')
+    ctx.notes.append('time per stream: ' + ', '.join(times))
 
 
 class _Collect:
